@@ -456,7 +456,7 @@ reg_node("C05", "Theorems (every voter state, every request, every order of even
          "are the persisted ones; no step of any kind lowers the term or changes a cast vote within a term; along any history at most one "
          "candidate per term and terms never decrease; reported terms lie between the terms before and after the step; the pre-repair handler is refuted.",
          ["(term, votedFor) in the model IS the term file: crash atomicity of its rename is covered by C10's crash images"],
-         extra_props=["AbsTie.v"])
+         extra_props=["AbsTie.v", "AbsLink.v"])
 
 
 # ------------------------------------------------------------------ C20
@@ -500,7 +500,7 @@ reg_node("C06", "Theorems (node level, every state/input): the commit point the 
          "majority of the configuration in force for that leader whose members hold the committed prefix durably - whatever crashes, truncations, "
          "reconfigurations and installations followed; observed: cfg_observed_commit_durable (Props/CfgTie.v). Monitor: at every commit advance on the "
          "simulated cluster, count the voters that hold the entry flushed.",
-         ["NoDup node ids in a configuration (Go map)"], extra_props=["AbsTie.v", "C08_abs.v", "CfgTie.v"])
+         ["NoDup node ids in a configuration (Go map)"], extra_props=["AbsTie.v", "C08_abs.v", "CfgTie.v", "AbsLink.v"])
 reg_node("C08", "Theorems: every configuration derived by one action is adjacent (voter sets differ in at most one node) and majorities of adjacent "
          "configurations intersect; a submitted configuration is rejected unless the previous one is committed, an own-term entry is committed, no "
          "voting right changes directly, no node vanishes, new nodes are non-voters and a stable voter remains; actions are carried out only when "
@@ -575,7 +575,7 @@ reg_node("C02", "Theorems: (abstract protocol, Props/C02.v when present) leader 
          "interleaving; (node level, Props/C02_rules.v) a vote is newly cast only for an at-least-as-up-to-date log, a follower truncates only "
          "from the first conflicting index, holds every request entry as sent, the follower commit index moves only to covered current-term "
          "entries, a leader's log is append-only. Monitors: committed entries never differ between nodes, every leader holds all committed entries.",
-         ["Abs/Raft.v (crash, flush, snapshots) has a static voter set; Abs/CfgRaft.v (Props/C08_abs.v) has membership changes in the log, durable prefix, crash/restart and snapshot installation"], extra_props=["C02_rules.v", "AbsTie.v", "C08_abs.v", "CfgTie.v"])
+         ["Abs/Raft.v (crash, flush, snapshots) has a static voter set; Abs/CfgRaft.v (Props/C08_abs.v) has membership changes in the log, durable prefix, crash/restart and snapshot installation"], extra_props=["C02_rules.v", "AbsTie.v", "C08_abs.v", "CfgTie.v", "AbsLink.v"])
 reg_node("C03", "Theorems: (abstract protocol, Props/C03.v when present) committed prefixes of any two nodes are prefix-related; (node level) the "
          "state machine is fed the entries after its position up to the commit index contiguously, in order, once (apply_is_contiguous, "
          "queue_applied_in_order). Monitor: state-machine command lists of all nodes are pairwise prefix-related after every event.",
@@ -583,7 +583,7 @@ reg_node("C03", "Theorems: (abstract protocol, Props/C03.v when present) committ
 reg_node("C04", "Theorems: (abstract protocol, Props/C04.v) log matching for any two logs of any reachable state and leader append-only; (node level) "
          "requests are faithful log slices with the right prevLogTerm, followers hold request entries exactly as sent, leaders never rewrite "
          "their log. Monitor: (index, term) -> (type, payload, predecessor term) stays a function over every log ever dumped.",
-         [], extra_props=["C02_rules.v", "AbsTie.v", "CfgTie.v"])
+         [], extra_props=["C02_rules.v", "AbsTie.v", "CfgTie.v", "AbsLink.v"])
 reg_node("C07", "Theorems (node level): non-leaders reject definitively and change nothing; a transferring/demoted leader rejects the whole batch; "
          "accepted updates are appended in batch order at the next indices with the leader's term; tasks are released only as a committed prefix "
          "of the queue (so a read/barrier reflects every update accepted before it); an update's reply is the state machine's result for the entry "
